@@ -166,12 +166,31 @@ pub fn draw_plan(rng: &mut Rng, sites: &[Site], miri: bool) -> DelayPlan {
 
 pub fn run_case(c: &SchedCase) -> ExecOutcome {
     hookrec::set_thread(0, c.seed ^ c.case);
-    let mut o = match c.workload.as_str() {
+    let r = std::panic::catch_unwind(std::panic::AssertUnwindSafe(|| match c.workload.as_str() {
         "ping" => ping::run(c),
         "chan" => chan::run(c),
         "exec" => exec::run(c),
         "lsig" => lsig::run(c),
         _ => ExecOutcome::default(),
+    }));
+    let mut o = match r {
+        Ok(o) => o,
+        Err(p) => {
+            // a panic on the loop thread: inside calloop it is a violation of whatever property the
+            // workload belongs to, inside the harness it is a harness bug
+            hookrec::end();
+            let msg = crate::panic_message(p.as_ref());
+            let loc = crate::last_panic_loc();
+            let mut o = ExecOutcome::default();
+            o.nontrivial = true;
+            if loc.contains("/repo/") {
+                let l: String = loc.rsplit("/repo/").next().unwrap_or(&loc).chars().map(|c| if c.is_alphanumeric() || c == '.' { c } else { '_' }).collect();
+                o.alarm("no_panic", &format!("panic-at-{}", l), format!("the loop thread panicked at {}: {}", loc, msg));
+            } else {
+                o.inconclusive.push(format!("harness panic at {}: {}", loc, msg));
+            }
+            o
+        }
     };
     o.finish_class();
     o
